@@ -173,9 +173,71 @@ def h_hist__reach(mask: int, payload: int, i0: int, i1: int, s0: int, o0: int, s
     assert ok and not (op == "sp_set" and mask & 1 and args == ("a", 1))  # twin: a re-key of an initialised job is reachable
 
 
+# ------------------------------------------------------------------------------------------------ E4: the real constructor with a relative path
+def _relative_case(spell, inside):
+    """a Project built directly from a RELATIVE path; the working directory changes afterwards (`with job:` enters the job directory):
+    every later operation through the project / job handles still acts on the project - workspace == model"""
+    import os, shutil, json
+    import signac
+    root = "/dev/shm/vf_c03rel_%d" % os.getpid()
+    shutil.rmtree(root, ignore_errors=True)
+    os.makedirs(root)
+    old = os.getcwd()
+    problems = []
+    try:
+        os.chdir(root)
+        signac.init_project(os.path.join(root, "proj"))
+        pr = signac.Project(["proj", "./proj", "proj/../proj", "proj/"][spell])
+        j1 = pr.open_job({"a": 1}).init()
+
+        def work():
+            pr.open_job({"a": 2}).init()
+            j1.document["k"] = 1
+            pr.document["p"] = [1, {"q": 2}]
+            with open(j1.fn("out.txt"), "w") as f:
+                f.write("x")
+        if inside:
+            with j1:
+                work()
+        else:
+            os.makedirs(os.path.join(root, "elsewhere"))
+            os.chdir(os.path.join(root, "elsewhere"))
+            work()
+        os.chdir(root)
+        fresh = signac.get_project(os.path.join(root, "proj"), search=False)
+        got = {j.id: (j.statepoint(), dict(j.document()), sorted(os.listdir(j.path))) for j in fresh}
+        want = {signac.job.calc_id({"a": 1}): ({"a": 1}, {"k": 1}, ["out.txt", "signac_job_document.json", "signac_statepoint.json"]),
+                signac.job.calc_id({"a": 2}): ({"a": 2}, {}, ["signac_statepoint.json"])}
+        if got != want:
+            problems.append(("workspace differs from the model", got))
+        if dict(fresh.document()) != {"p": [1, {"q": 2}]}:
+            problems.append(("project document", dict(fresh.document())))
+        fresh.check()
+        stray = sorted(n for n in os.listdir(root) if n not in ("proj", "elsewhere")) + sorted(os.listdir(os.path.join(root, "elsewhere")) if not inside else [])
+        if stray:
+            problems.append(("entries created outside the project", stray))
+    except Exception as e:  # noqa
+        problems.append(("operation failed", type(e).__name__, str(e)[:100]))
+    finally:
+        os.chdir(old)
+        shutil.rmtree(root, ignore_errors=True)
+    return problems
+
+
+def h_relative_project(spell: int, inside: bool):
+    assert 0 <= spell <= 3
+    fresh_path()
+    spell, inside = ci(spell, 0, 3), cb(inside)
+    with nt():
+        problems = _relative_case(spell, inside)
+    reached()
+    assert not problems
+
+
 HARNESSES = [
     dict(name="h_listing", twin="h_listing__reach", timeout=(300, 600), parts=(6, 6)),
     dict(name="h_hist", twin="h_hist__reach", timeout=(900, 3000), parts=(31, 31)),
+    dict(name="h_relative_project", timeout=(300, 600), unblock=True),
 ]
 
 
